@@ -989,6 +989,44 @@ func runT6(p *an.Prog, r *an.Result) {
 	} else {
 		r.Bad(name, "a wildcard in the token pattern excludes newline", an.FuncPos(fn), fmt.Sprintf("the pattern %s contains %d `.` that do not match a newline: a line break inside an object or tag changes how the template is tokenised", pat, notNL))
 	}
+	// what a group captures is one (lazy) repetition of single characters or of alternatives that each consume a
+	// bounded piece; an alternative that repeats on its own (a quoted string "[^"]*" taken as a unit) can run past
+	// the closing delimiter to a later quote - through `{% endraw %}`, through the end of a comment
+	{
+		nested := 0
+		var inRep func(x *syntax.Regexp, depth int)
+		inRep = func(x *syntax.Regexp, depth int) {
+			d := depth
+			switch x.Op {
+			case syntax.OpStar, syntax.OpPlus, syntax.OpRepeat:
+				if x.Op != syntax.OpRepeat || x.Max < 0 || x.Max > 1 {
+					d++
+					if d > 1 {
+						nested++
+					}
+				}
+			}
+			for _, sub := range x.Sub {
+				inRep(sub, d)
+			}
+		}
+		var caps func(x *syntax.Regexp)
+		caps = func(x *syntax.Regexp) {
+			if x.Op == syntax.OpCapture {
+				inRep(x, 0)
+				return
+			}
+			for _, sub := range x.Sub {
+				caps(sub)
+			}
+		}
+		caps(re)
+		if nested == 0 {
+			r.OK(name, "no captured body contains a repetition inside its repetition", an.FuncPos(fn), "each step of a token's body consumes a bounded piece: the lazy match ends at the first closing delimiter")
+		} else {
+			r.Bad(name, "a captured body repeats inside its repetition", an.FuncPos(fn), fmt.Sprintf("the pattern %s lets one step of a token's body consume an unbounded run (%d nested repetitions): a look-alike with one unpaired quote inside raw or comment swallows the end tag", pat, nested))
+		}
+	}
 	if re.MaxCap() == 3 {
 		r.OK(name, "three capture groups", an.FuncPos(fn), "object contents, tag name, tag arguments - the groups Scan reads as m[2..7]")
 	} else {
@@ -2477,4 +2515,108 @@ func plainStringWrites(p *an.Prog, fn *ssa.Function) []stringWrite {
 		}
 	})
 	return out
+}
+
+// ---------------------------------------------------------------------------
+// T12
+
+func init() {
+	register("T12", "output reaches the caller's writer only through the trim writer: the fields of the trim writer (the wrapped writer, the held-back buffer, the pending-trim flag) are read and written by its own methods and by the literal that builds it, and by nothing else", runT12)
+}
+
+// runT12: a left hyphen trims what the trim writer still holds back; text that a node sends straight to
+// the wrapped writer (a fast path for large chunks) has left before the hyphen is seen, and text that a
+// node puts into the buffer itself bypasses the pending right trim. So no function other than the
+// methods of the trim writer touches its fields.
+func runT12(p *an.Prog, r *an.Result) {
+	var tw *types.Named
+	for _, n := range moduleNamedTypes(p) {
+		if n.Obj().Pkg() != nil && an.RelPkg(n.Obj().Pkg().Path()) == "render" && n.Obj().Name() == "trimWriter" {
+			tw = n
+		}
+	}
+	if tw == nil {
+		// by role: the struct of package render that has a Write method and a TrimLeft-like pair, holding an io.Writer
+		for _, n := range moduleNamedTypes(p) {
+			st, ok := n.Underlying().(*types.Struct)
+			if !ok || n.Obj().Pkg() == nil || an.RelPkg(n.Obj().Pkg().Path()) != "render" {
+				continue
+			}
+			hasW, hasBuf := false, false
+			for i := 0; i < st.NumFields(); i++ {
+				if isIOWriter(st.Field(i).Type()) {
+					hasW = true
+				}
+				if isNamedIn(st.Field(i).Type(), "bytes", "Buffer") {
+					hasBuf = true
+				}
+			}
+			if hasW && hasBuf {
+				tw = n
+			}
+		}
+	}
+	if tw == nil {
+		r.Bad("-", "trim writer type not found", token.NoPos, "anchor not resolved")
+		return
+	}
+	isTW := func(t types.Type) bool {
+		if pt, ok := t.Underlying().(*types.Pointer); ok {
+			t = pt.Elem()
+		}
+		return types.Identical(t, tw)
+	}
+	for _, fn := range p.Funcs {
+		if fn.Blocks == nil || isMainPkg(fn) {
+			continue
+		}
+		own := fn.Signature.Recv() != nil && isTW(fn.Signature.Recv().Type())
+		if !own && fn.Parent() != nil {
+			if o := an.Outermost(fn); o.Signature.Recv() != nil && isTW(o.Signature.Recv().Type()) {
+				own = true
+			}
+		}
+		an.EachInstr(fn, func(in ssa.Instruction) {
+			var x ssa.Value
+			field := -1
+			switch y := in.(type) {
+			case *ssa.FieldAddr:
+				x, field = y.X, y.Field
+			case *ssa.Field:
+				x, field = y.X, y.Field
+			}
+			if field < 0 || !isTW(x.Type()) {
+				return
+			}
+			r.Counts["trim writer field accesses"]++
+			fname := tw.Underlying().(*types.Struct).Field(field).Name()
+			if own {
+				r.OK(an.FuncName(fn), "trimWriter."+fname+" used by the trim writer itself", in.Pos(), "")
+				return
+			}
+			// the literal that builds one: only stores into a fresh allocation
+			fa, isFA := in.(*ssa.FieldAddr)
+			if isFA {
+				if al, ok := fa.X.(*ssa.Alloc); ok {
+					onlyStores := true
+					if fa.Referrers() != nil {
+						for _, u := range *fa.Referrers() {
+							if st, ok := u.(*ssa.Store); !ok || st.Addr != ssa.Value(fa) {
+								if _, dbg := u.(*ssa.DebugRef); !dbg {
+									onlyStores = false
+								}
+							}
+						}
+					}
+					_ = al
+					if onlyStores {
+						r.OK(an.FuncName(fn), "trimWriter."+fname+" set where the writer is built", in.Pos(), "")
+						return
+					}
+				}
+			}
+			r.Bad(an.FuncName(fn), "trimWriter."+fname+" touched outside the trim writer", in.Pos(), fmt.Sprintf("%s reads or writes the trim writer's %s directly: output that does not go through Write is not there when a left hyphen trims what is held back, and is not trimmed by a pending right hyphen", an.FuncName(fn), fname))
+		})
+	}
+	r.Floor("trim writer field accesses", 5)
 }
